@@ -982,6 +982,22 @@ func streamGoConv(o *Out, r *rand.Rand, n int, thorough bool) {
 		_ = e.Define("mkErr", func() error { return &goMyErr{"boom"} })
 		_ = e.Define("area", func(c *goCirc) int64 { return c.R * c.R })
 		_ = e.Define("errText", func(x *goMyErr) string { return x.msg })
+		// values of a named string type held in Go slices / arrays / struct fields keep their type (and methods) through every binding;
+		// empty lists arrive as EMPTY slices (not nil) and never as arrays
+		_ = e.Define("colors", []goColor{"red", "green"})
+		_ = e.Define("pal", &struct{ C goColor }{"blue"})
+		_ = e.Define("isColor", func(x interface{}) bool { _, ok := x.(goColor); return ok })
+		_ = e.Define("wantColor", func(c goColor) string { return "color:" + string(c) })
+		_ = e.Define("isnilstrs", func(s []string) string { return fmt.Sprint(s == nil, len(s)) })
+		_ = e.Define("nested", func(s [][]string) string {
+			out := fmt.Sprint(s == nil, len(s))
+			for _, x := range s {
+				out += fmt.Sprint(" ", x == nil, len(x))
+			}
+			return out
+		})
+		_ = e.Define("arr2s", func(a [2]int64) int64 { return a[0] + a[1] })
+		_ = e.Define("hs", &struct{ L []string }{})
 		named := []struct {
 			src   string
 			check func(res interface{}, err error) string // "" = fine
@@ -1067,6 +1083,30 @@ func streamGoConv(o *Out, r *rand.Rand, n int, thorough bool) {
 			{"x = mkErr()\n[errText(x), errText(mkErr())]", func(res interface{}, err error) string {
 				if err != nil || fmt.Sprint(res) != "[boom boom]" {
 					return fmt.Sprintf("an error-typed result handed to a parameter of its dynamic type: got %v, err %v", res, err)
+				}
+				return ""
+			}},
+			{"v = colors[0]\nfunc ret() { return colors[1] }\nr = []\nfor c in colors {\nr += isColor(c)\n}\n[isColor(v), isColor(colors[0]), isColor(ret()), isColor(pal.C), r, wantColor(colors[0]), wantColor(v), v.Hex(), pal.C.Hex()]", func(res interface{}, err error) string {
+				if err != nil || fmt.Sprint(res) != "[true true true true [true true] color:red color:red #red #blue]" {
+					return fmt.Sprintf("a named string type read from a Go slice element / struct field, bound, looped over, returned, passed on: got %v, err %v", res, err)
+				}
+				return ""
+			}},
+			{"e1 = [1][1:]\n[isnilstrs([]), isnilstrs(e1), nested([[]]), nested([]), nested([[\"a\"], []])]", func(res interface{}, err error) string {
+				if err != nil || fmt.Sprint(res) != "[false 0 false 0 false 1 false 0 false 0 false 2 false 1 false 0]" {
+					return fmt.Sprintf("empty lists handed to []string / [][]string parameters arrive as empty (non-nil) slices: got %v, err %v", res, err)
+				}
+				return ""
+			}},
+			{"arr2s([])", func(res interface{}, err error) string {
+				if err == nil {
+					return fmt.Sprintf("an empty list was accepted for a [2]int64 parameter: %v", res)
+				}
+				return ""
+			}},
+			{"hs.L = []\nhs.L", func(res interface{}, err error) string {
+				if s, ok := res.([]string); err != nil || !ok || s == nil || len(s) != 0 {
+					return fmt.Sprintf("an empty list stored into a []string field is an empty slice: got %#v, err %v", res, err)
 				}
 				return ""
 			}},
@@ -1200,3 +1240,7 @@ func (c *goCirc) Area() int64 { return c.R * c.R }
 type goMyErr struct{ msg string }
 
 func (e *goMyErr) Error() string { return e.msg }
+
+type goColor string
+
+func (c goColor) Hex() string { return "#" + string(c) }
